@@ -119,15 +119,19 @@ def run_async(c):
 
 
 # --------------------------------------------------------------------- map
-def run_map(c):
-    cache = {}
-    cbs, ecbs = [], []
-    cb = (lambda v: cbs.append(jl(v))) if c['cb'] else None
-    ecb = (lambda e: ecbs.append(tok_of(e))) if c['ecb'] else None
-    res = bp.MapResult(cache, c['k'], c['n'], cb, ecb)
-    job = res._job
-    outs = []
-    for op in c['ops']:
+class MapH:
+    """one real MapResult over the given cache"""
+
+    def __init__(self, cache, c):
+        self.cache = cache
+        self.cbs, self.ecbs = [], []
+        cb = (lambda v: self.cbs.append(jl(v))) if c['cb'] else None
+        ecb = (lambda e: self.ecbs.append(tok_of(e))) if c['ecb'] else None
+        self.res = bp.MapResult(cache, c['k'], c['n'], cb, ecb)
+        self.job = self.res._job
+
+    def step(self, op):
+        res, cache, job = self.res, self.cache, self.job
         kind = op[0]
         try:
             if kind in ('set', 'dset', 'fail', 'dfail'):
@@ -141,24 +145,39 @@ def run_map(c):
                             pass
                 else:
                     res._set(op[1], obj)
-                outs.append(['unit'])
-            elif kind == 'ack':
+                return ['unit']
+            if kind == 'ack':
                 res._ack(op[1], 1.0, 4242, None)
-                outs.append(['unit'])
-            elif kind == 'get':
+                return ['unit']
+            if kind == 'get':
                 try:
-                    outs.append(['list', jl(res.get(timeout=0))])
+                    return ['list', jl(res.get(timeout=0))]
                 except BTimeoutError:
-                    outs.append(['timeout'])
+                    return ['timeout']
                 except ExceptionWithTraceback as exc:
-                    outs.append(['raise', exc.exc.args[0]])
+                    return ['raise', exc.exc.args[0]]
         except (TypeError, IndexError, KeyError) as exc:
-            outs.append(['exn', exn_name(exc)])
-    v = res._value
-    value = ['list', jl(v)] if isinstance(v, list) else ['err', tok_of(v)]
-    return dict(outs=outs, success=bool(res._success), value=value, ready=res.ready(),
-                cb=cbs, ecb=ecbs, left=res._number_left, incache=job in cache,
-                accepted=[bool(x) for x in res._accepted])
+            return ['exn', exn_name(exc)]
+        raise ValueError('unknown map op %r' % (op,))
+
+    def final(self):
+        res = self.res
+        v = res._value
+        value = ['list', jl(v)] if isinstance(v, list) else ['err', tok_of(v)]
+        return dict(success=bool(res._success), value=value, ready=res.ready(),
+                    cb=self.cbs, ecb=self.ecbs, left=res._number_left, incache=self.job in self.cache,
+                    accepted=[bool(x) for x in res._accepted])
+
+
+def run_handle(h, ops):
+    outs = [h.step(op) for op in ops]
+    d = h.final()
+    d['outs'] = outs
+    return d
+
+
+def run_map(c):
+    return run_handle(MapH({}, c), c['ops'])
 
 
 # -------------------------------------------------------------------- imap
@@ -201,6 +220,8 @@ def ctl(it, cache, op):
                     pass
         elif kind == 'len':
             it._set_length(op[1])
+        else:
+            raise ValueError('unknown iterator op %r' % (op,))
         return ['unit']
     except (TypeError, IndexError, KeyError) as exc:
         return ['exn', exn_name(exc)]
@@ -213,18 +234,43 @@ def final_iter(it, cache):
                 incache=it._job in cache)
 
 
-def run_imap(c):
-    cache = {}
-    it = (bp.IMapUnorderedIterator if c['unordered'] else bp.IMapIterator)(cache)
-    outs = []
-    for op in c['ops']:
+class ImapH:
+    """one real IMapIterator / IMapUnorderedIterator over the given cache"""
+
+    def __init__(self, cache, c):
+        self.cache = cache
+        self.it = (bp.IMapUnorderedIterator if c['unordered'] else bp.IMapIterator)(cache)
+
+    def step(self, op):
         if op[0] == 'next':
-            outs.append(do_next(lambda: it.next(timeout=0)))
-        else:
-            outs.append(ctl(it, cache, op))
-    d = final_iter(it, cache)
-    d['outs'] = outs
-    return d
+            return do_next(lambda: self.it.next(timeout=0))
+        return ctl(self.it, self.cache, op)
+
+    def final(self):
+        return final_iter(self.it, self.cache)
+
+
+def run_imap(c):
+    return run_handle(ImapH({}, c), c['ops'])
+
+
+# ------------------------------------------------------------------- multi
+def run_multi(c):
+    """several result handles alive at once over ONE cache (as in a pool); every operation names
+    its handle; each handle is observed exactly like a single-handle case"""
+    cache = {}
+    hs = []
+    for spec in c['handles']:
+        hs.append(MapH(cache, spec) if spec['kind'] == 'map' else ImapH(cache, spec))
+    outs = [[] for _ in hs]
+    for op in c['ops']:
+        outs[op[0]].append(hs[op[0]].step(op[1:]))
+    res = []
+    for h, o in zip(hs, outs):
+        d = h.final()
+        d['outs'] = o
+        res.append(d)
+    return dict(handles=res)
 
 
 # -------------------------------------------------------------------- flat
@@ -505,11 +551,21 @@ def run_pool(cfg):
     os._exit(0)
 
 
-RUNNERS = dict(chunks=run_chunks, star=run_star, **{'async': run_async}, map=run_map, imap=run_imap,
+RUNNERS = dict(chunks=run_chunks, star=run_star, multi=run_multi, **{'async': run_async}, map=run_map, imap=run_imap,
                flat=run_flat, apply=run_apply)
+
+def run_case(c):
+    """an exception inside one case is that case's observation, never a crash of the run"""
+    try:
+        return RUNNERS[c['t']](c)
+    except Exception as exc:          # noqa: the point is to catch everything
+        import traceback
+        return dict(crashed='%s: %s' % (type(exc).__name__, exc),
+                    where=traceback.format_exc().strip().split('\n')[-3:])
+
 
 if __name__ == '__main__':
     cases = json.load(sys.stdin)
     if isinstance(cases, dict) and cases.get('mode') == 'pool':
         run_pool(cases)
-    print(json.dumps([RUNNERS[c['t']](c) for c in cases]))
+    print(json.dumps([run_case(c) for c in cases]))
